@@ -231,17 +231,17 @@ func WriteEvidence(env *Env, level string, cov map[string]interface{}, assumptio
 
 // TLCOpts configures one TLC run.
 type TLCOpts struct {
-	Module   string // e.g. "Scheduler" (file specs/Scheduler.tla)
-	Config   string // e.g. "Scheduler_flat3.cfg"
-	Workers  int
-	Timeout  time.Duration
-	HeapGB   int
-	Files    map[string][]byte // extra files placed next to the specs (trace logs, generated cfgs)
-	Simulate string            // e.g. "num=100" (adds -simulate)
-	Depth    int
-	Seed     int64
-	Coverage bool
-	DFS      bool // StateDeque queue (depth-first) for branching trace specs
+	Module          string // e.g. "Scheduler" (file specs/Scheduler.tla)
+	Config          string // e.g. "Scheduler_flat3.cfg"
+	Workers         int
+	Timeout         time.Duration
+	HeapGB          int
+	Files           map[string][]byte // extra files placed next to the specs (trace logs, generated cfgs)
+	Simulate        string            // e.g. "num=100" (adds -simulate)
+	Depth           int
+	Seed            int64
+	Coverage        bool
+	DFS             bool // StateDeque queue (depth-first) for branching trace specs
 	ExpectViolation bool
 }
 
@@ -250,7 +250,7 @@ type TLCResult struct {
 	Generated, Distinct int64
 	Out                 string
 	ExitCode            int
-	Violated            string // name of the violated invariant/property, "" if none
+	Violated            string   // name of the violated invariant/property, "" if none
 	Printed             []string // payloads of PrintT(<<"TAG", json>>) lines, raw
 	Wall                time.Duration
 	Dir                 string
